@@ -371,6 +371,17 @@ fn forward_transformed(idx: u64, rng: &mut Rng, mon: &mut Mon) {
     } else {
         mon.held();
     }
+    // nothing may get lost on the way: asking the wrapped robot directly for the (reference) moved pose gives the list
+    {
+        use rs_opw_kinematics::kinematic_traits::Kinematics;
+        let direct = frame.robot.inverse_continuing(&fr_to_iso(&want), &prev_given);
+        let missing = direct.iter().filter(|d| !sols.iter().any(|s| (0..6).all(|j| (s[j] - d[j]).abs() <= 1e-6))).count();
+        if missing > 0 || sols.len() < direct.len() {
+            mon.violation("forward-transformed:solutions-lost", "forward_transformed returns fewer solutions than the wrapped robot finds for the moved pose", detail("complete", json!({"returned": sols.len(), "wrapped_robot_finds": direct.len()})));
+        } else {
+            mon.held();
+        }
+    }
     if !sols.is_empty() {
         mon.count("forward_transformed.with_solutions");
         mon.nontrivial(hash_combine(robot_hash(&robot), hash_f64s(&q)));
